@@ -135,6 +135,9 @@ JSON JSON::parse(StringReader& r, bool disable_extensions) {
 
       char exp_specifier = r.eof() ? '\0' : r.get_s8(false);
       if (exp_specifier == 'e' || exp_specifier == 'E') {
+        // The scaled value is generally not integral (5e-1) and may not fit in
+        // an int64 (1e20), so numbers in exponent form are always floats.
+        is_int = false;
         r.get_s8();
         char sign_char = r.get_s8(false);
         bool e_negative = sign_char == '-';
@@ -149,12 +152,10 @@ JSON JSON::parse(StringReader& r, bool disable_extensions) {
 
         if (e_negative) {
           for (; e > 0; e--) {
-            int_data *= 0.1;
             float_data *= 0.1;
           }
         } else {
           for (; e > 0; e--) {
-            int_data *= 10;
             float_data *= 10;
           }
         }
